@@ -14,9 +14,9 @@ def jobs(tier):
     J = []
     for ls in range(0, 2):     # length 2 exhausts the solver's memory (symbolic-size realloc/strcat in String_Concat); the per-character lemma is length 1
         J.append(Job("C15.String.show_look.len%d" % ls, "C15", "K3", "String/k3_showlook.c", "h_show_look", ["String_Show", "String_Look", "String_Concat", "String_Clear"],
-                     link=["src/Exception.c", "src/Iter.c", "stubs/throw.c", "stubs/libc_str.c"], defines=["LS=%d" % ls], replace_calls=["exception_throw:cv_throw"], unwind=ls + 6,
+                     link=["src/Exception.c", "src/Iter.c", "src/Pointer.c", "stubs/throw.c", "stubs/libc_str.c"], defines=["LS=%d" % ls], replace_calls=["exception_throw:cv_throw"], unwind=ls + 6,
                      cbmc=["--no-malloc-may-fail", "--unwindset", "String_Look.0:%d" % (ls + 2)], group="String.show_look", timeout=600, case="string length %d" % ls, replay="C15_roundtrip.c", bound="strings of length <= 1 (every byte value): the per-character round-trip lemma; longer strings undecided (solver memory)"))
-    L = ["src/Exception.c", "src/Num.c", "stubs/throw.c", "stubs/libc_str.c"]
+    L = ["src/Exception.c", "src/Num.c", "src/String.c", "src/Pointer.c", "src/Iter.c", "stubs/throw.c", "stubs/libc_str.c"]
     RC = ["exception_throw:cv_throw", "show_to:cv_show_to", "format_to:cv_format_to", "format_from:cv_format_from"]
     for h, fn in [("h_look_float", ["Float_Look", "scan_from_with"]), ("h_look_int", ["Int_Look (conversion %li)", "scan_from_with"])]:
         J.append(Job("C15.%s" % h[2:], "C15", "K3", "Show/k3.c", h, fn, link=L, replace_calls=RC, unwind=24, gen={"gen_format.h": _C14.header("%d")}, group="numeric.look",
